@@ -242,7 +242,7 @@ Inductive obs :=
 | OErrOther.                     (* any other error *)
 
 (* c_consumed: bytes taken from the stream when Parse returned *)
-Record case := mkCase { c_id : nat; c_in : bytes; c_obs : obs; c_consumed : N }.
+Record case := mkCase { c_id : N; c_in : bytes; c_obs : obs; c_consumed : N }.
 
 Definition consumed_ok (inp rest : bytes) (scanned_head : bool) (want : N) : bool :=
   let used := N.of_nat (List.length inp - List.length rest) in
@@ -259,4 +259,4 @@ Definition case_ok (c : case) : bool :=
   end.
 
 Definition mismatches (cs : list case) : list nat :=
-  map c_id (filter (fun c => negb (case_ok c)) cs).
+  map (fun c => N.to_nat (c_id c)) (filter (fun c => negb (case_ok c)) cs).
